@@ -3,10 +3,10 @@ import os
 from vlib.core import MachineryError
 
 FAMILIES_ALL = ["versions", "member_self", "member_restricted", "member_other", "member_tpi", "structure",
-                "generic", "create", "pl0", "pl1", "pl2", "pl3", "plnames"]
-FAMILIES_PL = ["versions", "pl0", "pl1", "pl2", "pl3", "plnames"]
+                "generic", "create", "pl0", "pl1", "pl2", "pl3", "plnames", "placcess", "provider"]
+FAMILIES_PL = ["versions", "pl0", "pl1", "pl2", "pl3", "plnames", "placcess", "plseq"]
 
-INVS = "AcceptedImpliesNoEsc BannedNeverPasses NoCreateNoPass MixedNeverPass OnlyNeededState Emit"
+INVS = "AcceptedImpliesNoEsc BannedNeverPasses NoCreateNoPass MixedNeverPass OnlyNeededState EditChangesNothing Emit"
 
 
 def cfg_text(family, versions, pldepth):
@@ -15,10 +15,16 @@ def cfg_text(family, versions, pldepth):
 
 
 def gen_family(ctx, family, workers=None):
+    if family == "provider":
+        return gen_provider(ctx, workers)
+    if family == "plseq":
+        return gen_plseq(ctx, workers)
     versions = "VersionsQuick" if ctx.tier == "quick" else "VersionsAll"
     pldepth = "small"
     if family in ("pl2", "plnames") and ctx.tier == "quick":
         versions = "VersionsPL2Quick"
+    if family == "placcess" and ctx.tier == "quick":
+        versions = "VersionsAccessQuick"
     d = ctx._spec_dir()
     cfg = "Auth_gen_%s_%s.cfg" % (family, ctx.tier)
     with open(os.path.join(d, cfg), "w") as f:
@@ -26,7 +32,52 @@ def gen_family(ctx, family, workers=None):
     return ctx.tlc("Auth_gen", cfg, timeout=1500, workers=workers)
 
 
-def run_families(ctx, cmd, families):
+PROVIDER_INVS = "HeldIsLatest ValidIffOneRoom MixedNeverPass PassNeedsOwnRoom Emit"
+PROVIDER_VERSIONS_THOROUGH = '{"1", "3", "6", "10", "11", "12", "org.matrix.hydra.11", "org.matrix.msc4014"}'
+
+
+def gen_provider(ctx, workers=None):
+    """AuthProv.tla: every behaviour New(list) / AddEvent / Clear of at most MaxOps operations, then Allowed."""
+    versions = '{"6", "12"}' if ctx.tier == "quick" else PROVIDER_VERSIONS_THOROUGH
+    d = ctx._spec_dir()
+    cfg = "AuthProv_%s.cfg" % ctx.tier
+    with open(os.path.join(d, cfg), "w") as f:
+        f.write("SPECIFICATION Spec\nCONSTANTS\n  Versions = %s\n  MaxOps = 4\nINVARIANTS %s\nCHECK_DEADLOCK FALSE\n"
+                % (versions, PROVIDER_INVS))
+    return ctx.tlc("AuthProv", cfg, timeout=1500, workers=workers)
+
+
+SEQ_INVS = "SeqAcceptedNoEsc SeqNobodyRises SeqNoSelfPromotion SeqChained Emit"
+
+
+def gen_plseq(ctx, workers=None):
+    """AuthSeq_gen.tla: every session of two power-levels events (thorough: plus sampled sessions of four)."""
+    d = ctx._spec_dir()
+    cfg = "AuthSeq_gen_%s.cfg" % ctx.tier
+    versions = 'Versions = {"6", "12"}' if ctx.tier == "quick" else "Versions <- AllVersions"
+    with open(os.path.join(d, cfg), "w") as f:
+        f.write("SPECIFICATION Spec\nCONSTANTS\n  %s\n  Steps = 2\n  Inits <- InitsQuick\nINVARIANTS %s\nCHECK_DEADLOCK FALSE\n"
+                % (versions, SEQ_INVS))
+    r = ctx.tlc("AuthSeq_gen", cfg, timeout=1500, workers=workers)
+    if ctx.tier == "thorough":
+        cfg4 = "AuthSeq_gen_sim4.cfg"
+        with open(os.path.join(d, cfg4), "w") as f:
+            f.write("SPECIFICATION Spec\nCONSTANTS\n  Versions <- AllVersions\n  Steps = 4\n  Inits <- InitsQuick\nINVARIANTS %s\nCHECK_DEADLOCK FALSE\n"
+                    % SEQ_INVS)
+        r4 = ctx.tlc("AuthSeq_gen", cfg4, timeout=1500, workers=2, simulate=10000, depth=5)   # 10000 sessions per worker
+        r.records = r.records + r4.records
+    return r
+
+
+REPLAY_CMD = {"provider": "c07prov", "plseq": "c08seq"}
+# started first (they take longest) and replayed last, whatever their place in `families`
+LONGEST_FIRST = ["pl2", "provider", "generic", "plnames", "pl3", "pl0"]
+REPLAYED_LAST = ["provider", "pl2"]
+
+
+def run_families(ctx, cmd, families, record=0):
+    """spec -> code for the given families.  record=n: the recorder of the code -> spec direction (n random calls) runs
+    in the background meanwhile; record_and_validate() picks its trace up."""
     ctx.assumptions += [
         "third-party-invite signatures: real ed25519 keys; signature scheme assumed unforgeable",
         "power levels are compared through ranks; each record is realised with one of four concrete ladders "
@@ -34,22 +85,38 @@ def run_families(ctx, cmd, families):
         "user IDs are used as sender IDs with the identity UserIDForSender (as in the library's tests)",
     ]
     ctx.exhaustive = True
-    ctx.notes["rule"] = ("every scenario of the Auth_gen.tla families %s for versions %s; "
+    ctx.notes["rule"] = ("every scenario of the Auth_gen.tla families %s for versions %s (placcess: each scenario also after the caller "
+                         "read a power-levels content through a public accessor and edited the value it got; provider: every behaviour "
+                         "of AuthProv.tla - New(list) / AddEvent / Clear, at most 4 operations - then Allowed; plseq: every two-event "
+                         "session of AuthSeq_gen.tla through one reused checker and through fresh Allowed calls); "
                          "distinct = distinct (family, version, canonical scenario key, verdict)"
                          % (families, "VersionsQuick" if ctx.tier == "quick" else "all 16"))
-    # TLC runs of the families are independent: a few at a time, then the replays (parallel inside the harness)
+    # TLC runs of the families are independent: a few at a time in worker threads (longest first); the main thread
+    # replays each family as soon as its records are there, in the fixed order of `families` (parallel inside the harness)
     from concurrent.futures import ThreadPoolExecutor
     ctx._spec_dir()   # create the scratch copy of spec/ before the threads start
-    with ThreadPoolExecutor(max_workers=4) as ex:
-        results = list(ex.map(lambda fam: gen_family(ctx, fam, workers=max(2, ctx.workers // 4)), families))
-    for r in results:
-        ctx.replay_and_compare(cmd, r.records)
+    order = [f for f in LONGEST_FIRST if f in families] + [f for f in families if f not in LONGEST_FIRST]
+    consume = [f for f in families if f not in REPLAYED_LAST] + [f for f in REPLAYED_LAST if f in families]
+    with ThreadPoolExecutor(max_workers=4) as tx, ThreadPoolExecutor(max_workers=1) as rx:
+        # the longest run gets twice the workers of the others
+        fut = {fam: tx.submit(gen_family, ctx, fam, max(2, ctx.workers // (2 if fam == "pl2" else 4))) for fam in order}
+        ctx.harness_build()
+        if record:
+            trace = os.path.join(ctx.scratch, "auth_trace.ndjson")
+            ctx._auth_recording = (record, trace, rx.submit(ctx.harness, "c07rec", None, ["-out", trace, "-n", record]))
+        for fam in consume:
+            r = fut[fam].result()
+            ctx.replay_and_compare(REPLAY_CMD.get(fam, cmd), r.records)
 
 
 def record_and_validate(ctx, n):
     """code -> spec: random full-vocabulary scenarios through the real Allowed(), validated by Auth_trace.tla."""
-    trace = os.path.join(ctx.scratch, "auth_trace.ndjson")
-    res = ctx.harness("c07rec", args=["-out", trace, "-n", n])
+    started = getattr(ctx, "_auth_recording", None)
+    if started and started[0] == n:
+        trace, res = started[1], started[2].result()
+    else:
+        trace = os.path.join(ctx.scratch, "auth_trace.ndjson")
+        res = ctx.harness("c07rec", args=["-out", trace, "-n", n])
     for r in res:  # panics while recording
         if not r.get("ok"):
             ctx.disagree("panic/Allowed", r.get("what", "panic")[:2000], {"scenario": r.get("extra"), "count": 1})
@@ -65,6 +132,8 @@ def record_and_validate(ctx, n):
             # the spec derives the opposite verdict
             probe = {"ver": rec["ver"], "st": rec["st"], "ev": rec["ev"], "want": (not rec["got"]), "noesc": True, "fam": "trace", "variant": rec["variant"]}
             cmd = "c07"
+        if rec.get("pre"):
+            probe["pre"] = rec["pre"]   # the caller's accessor-and-edit step that preceded the recorded call
         r0 = None
         for _ in range(6):   # a defect may be nondeterministic (map iteration order): several fresh processes
             out = [r for r in ctx.harness(cmd, [probe]) if "i" in r]
